@@ -108,7 +108,7 @@ variable (c : W2ACfg) (nb : Nat)
     oracle input, cycle by cycle): for every classic Wishbone master, every `ack` answers a presented strobe,
     a read `ack` carries the reference content of the addressed word, a write reaches the reference memory at
     its `ack`, and between bus cycles the memory behind the bridge equals the reference memory.
-    The addressed word is `axAddr c adr / nb` — the address the code computes (see `wb2axl_base_address_partial`). -/
+    The addressed word is `axAddr c adr / nb`, the byte address minus the base (`wb2axl_base_address`). -/
 theorem wb2axl_refines_mem (mem0 : Mem) (ins : List (WbM × AxlOracle)) :
     let S := Wb2Axl.sys c nb mem0
     S.LegalFrom (fun s i => s.g.reqHeld i.1) S.init ins →
@@ -149,19 +149,20 @@ theorem wb2axl_err (s : W2AState) (m : WbM) (r : AxlS) :
   · have h := Wb2Axl.err_read c s m r hs hv hr
     exact ⟨h.1, fun hb => (h.2 hb).2⟩
 
-/-- FULL STATEMENT (false on the code, finding C09-wb2axil-base-address-dw64):
-      the AXI-Lite address is the Wishbone byte address minus `base_address`, for every data width.
-    The code subtracts `base_address // 4` from the *word* address whatever the word size, which is right exactly
-    when a word has 4 bytes (and the base is word aligned): -/
-theorem wb2axl_base_address_partial (hs : c.shift = 2) (hb : c.base % 4 = 0) (adr : Nat) :
-    Wb2Axl.axAddr c adr = subTrunc (c.adrBits + 2) (adr * 4) c.base :=
-  Wb2Axl.axAddr_correct c hs hb adr
+/-- **Base address** (all word sizes, both addressings; the code as of fix 8039af6).  For a base address
+    aligned to the bus word, the AXI-Lite address is the Wishbone byte address minus `base_address`, modulo the
+    address width.  (Before the fix `base_address // 4` was subtracted from the word address whatever the word
+    size: 64-bit bus, base 0x1000, byte address 0x1018 went out as 0xfffff018 — fixed finding
+    C09-wb2axil-base-address-dw64.) -/
+theorem wb2axl_base_address (hb : c.base % 2 ^ c.shift = 0) (adr : Nat) :
+    Wb2Axl.axAddr c adr = subTrunc (c.adrBits + c.shift) (adr * 2 ^ c.shift) c.base :=
+  Wb2Axl.axAddr_correct c hb adr
 
-/-- Negative witness: 64-bit bus (`shift = 3`, 29 word-address bits), base 0x1000, byte address 0x1018
-    (word 0x203) goes out as 0xfffff018 instead of 0x18. -/
+/-- The witness of the fixed finding now gives the right address: 64-bit bus (`shift = 3`, 29 word-address
+    bits), base 0x1000, byte address 0x1018 (word 0x203) goes out as 0x18. -/
 example :
     let c : W2ACfg := { adrBits := 29, shift := 3, base := 0x1000 }
-    Wb2Axl.axAddr c 0x203 = 0xfffff018 ∧ subTrunc 32 (0x203 * 8) 0x1000 = 0x18 := by decide
+    Wb2Axl.axAddr c 0x203 = 0x18 ∧ c.base % 2 ^ c.shift = 0 := by decide
 
 /-- Non-vacuity of `wb2axl_refines_mem`: a held write of 0x5A to word 3, partner accepting and executing at once;
     the run is legal, the bus cycle completes and the partner memory holds the byte. -/
